@@ -41,3 +41,12 @@ for _pid, _names in QUICK_UNION.items():
         _h = _by_name.get(_n)
         if _h is not None and _h.tier == 'quick' and _pid not in _h.props:
             _h.props.append(_pid)
+
+# Public-API batteries used as bounded stand-in when a contract cannot be attached to the changed code and the
+# family's own replay program no longer builds either (e.g. the signature of a static helper changed).
+FALLBACKS = {
+    'are_hufftables_useable': ('api_huff.c', 'create_hufftables_api'),
+}
+for _n, _fb in FALLBACKS.items():
+    if _n in _by_name:
+        _by_name[_n].fallback = _fb
